@@ -27,11 +27,24 @@
   OF THIS SOFTWARE, EVEN IF ADVISED OF THE POSSIBILITY OF SUCH DAMAGE.
 **********************************************************************/
 
+#include <stddef.h>
 #include <aes_gcm.h>
 #include <aes_keyexp.h>
 #include "aes_keyexp_internal.h"
 #include "aes_gcm.h"
 #include "aes_gcm_internal.h"
+
+#ifdef SAFE_DATA
+/* the temporary decryption schedule contains the raw key: do not leave it on the stack
+ * (volatile stores: a plain memset of a dead array may be optimised away) */
+static inline void
+clear_tmp_exp_key(uint8_t *p, size_t n)
+{
+        volatile uint8_t *v = p;
+        while (n--)
+                *v++ = 0;
+}
+#endif
 
 void
 _aes_gcm_pre_128(const void *key, struct isal_gcm_key_data *key_data)
@@ -39,6 +52,9 @@ _aes_gcm_pre_128(const void *key, struct isal_gcm_key_data *key_data)
         uint8_t tmp_exp_key[ISAL_GCM_ENC_KEY_LEN * ISAL_GCM_KEY_SETS];
         _aes_keyexp_128((const uint8_t *) key, (uint8_t *) key_data->expanded_keys, tmp_exp_key);
         _aes_gcm_precomp_128(key_data);
+#ifdef SAFE_DATA
+        clear_tmp_exp_key(tmp_exp_key, sizeof(tmp_exp_key));
+#endif
 }
 
 void
@@ -47,6 +63,9 @@ _aes_gcm_pre_256(const void *key, struct isal_gcm_key_data *key_data)
         uint8_t tmp_exp_key[ISAL_GCM_ENC_KEY_LEN * ISAL_GCM_KEY_SETS];
         _aes_keyexp_256((const uint8_t *) key, (uint8_t *) key_data->expanded_keys, tmp_exp_key);
         _aes_gcm_precomp_256(key_data);
+#ifdef SAFE_DATA
+        clear_tmp_exp_key(tmp_exp_key, sizeof(tmp_exp_key));
+#endif
 }
 
 void
